@@ -58,6 +58,18 @@ Theorem C03_request_faithful : forall f q c,
 Proof. exact request_faithful_all. Qed.
 Print Assumptions C03_request_faithful.
 
+(** with a RequestAdaptor (body / compress / decompress) the body the backend receives decodes,
+    per its Content-Encoding label, to the client's content or to the adaptor's body *)
+Theorem C03_request_content : forall f,
+  (forall x, f_gunzip f (f_gzip f x) = Some x) ->
+  forall q c r b added cloned content,
+  label_simple (cq_headers r) -> decode f (cq_headers r) (cq_body r) = Some content ->
+  stripped (cq_headers r) CE = false ->
+  forward q f c r = ReqSent b added cloned ->
+  decode f (bq_headers b) (bq_body b) = Some (adapted (p_ra c) content).
+Proof. exact request_content. Qed.
+Print Assumptions C03_request_content.
+
 (** the client receives the backend's status and end-to-end headers, and a body that decodes
     (per its Content-Encoding label) to what the backend's body decodes to - or to the
     ResponseAdaptor's body - for every compression / adaptor / stream setting; the gateway
